@@ -1,6 +1,9 @@
 SPECIFICATION Spec
 CONSTANTS
-  ShapeUniverse <- AllShapes
+  Mode = "enum"
+  UseBindings = {"math", "json", "vmod", "vmod2"}
+  SitePatterns <- ThoroughPatterns
+  SelShapes = {}
   KeepTrace = FALSE
 INVARIANTS ImportedAtMostOnce LoadedBeforeUse ExactlyTheUsedOnes OnlyWhenNeeded Emit
 CHECK_DEADLOCK FALSE
